@@ -26,13 +26,18 @@ from .lib.paths import strip
 from .lib.value import vstr, walk
 
 
+PRIMITIVES = ('bool', 'char', 'str', 'u8', 'u16', 'u32', 'u64', 'u128', 'usize', 'i8', 'i16', 'i32', 'i64', 'i128', 'isize', 'f32', 'f64')
+
+
 def peel(ty):
     m = re.match(r'^std::option::Option<(.*)>$', ty)
     return m.group(1) if m else ty
 
 
-def kind_of(prog, ty, kinds):
+def kind_of(prog, ty, kinds, N=None):
     t = peel(ty)
+    if N is not None:
+        t = N.base(t)
     if t in kinds['string']:
         return 'string'
     if t in kinds['bool']:
@@ -40,32 +45,53 @@ def kind_of(prog, ty, kinds):
     m = re.match(r'^std::(?:vec::Vec|collections::HashSet|collections::BTreeSet)<(.*)>$', t)
     if m:
         inner = m.group(1)
-        ik = kind_of(prog, inner, kinds)
+        ik = kind_of(prog, inner, kinds, N)
         return 'array<%s>' % ik
-    if t.startswith('toml::map::Map<') or t in prog.adts and prog.adts[t]['kind'] == 'struct':
+    tc = N.cur(t) if N is not None else t
+    if t.startswith('toml::map::Map<') or tc in prog.adts and prog.adts[tc]['kind'] == 'struct':
         return 'table'
     return 'other:' + t
 
 
-def default_value_ok(prog, sl, name, callee):
-    """semantic check of named defaults"""
+def result_value(prog, sl, callee):
+    """normal form of what workspace function `callee` returns (private / derived helpers transparent), or None"""
+    f = prog.fns.get(callee)
+    if f is None:
+        return None
+    return strip(sl.inline_deep(sl.local(f, 0)))
+
+
+def value_is_default(name, v):
+    """is symbolic value v (normal form) the spec default `name`?  True / False / None (not decided on the value)"""
+    v = strip(v) if v is not None else ('unknown',)
     if name == 'app':
-        f = prog.fns.get('<libcnb_data::launch::WorkingDirectory as std::default::Default>::default')
-        if f is None:
-            return False
-        v = strip(sl.local(f, 0))
-        return v[0] == 'agg' and v[2] == 'App'
+        if v[0] == 'agg' and (v[1] or '').endswith('WorkingDirectory'):
+            return v[2] == 'App'
+        return None
     if name == 'linux':
-        f = prog.fns.get(callee)
-        if f is None:
-            return False
-        v = strip(sl.local(f, 0))
-        if v[0] == 'agg' and v[2] == 'Linux':
-            return True
+        if v[0] == 'agg' and (v[1] or '').endswith('PlatformOs'):
+            return v[2] == 'Linux'
         if v[0] == 'agg' and (v[1] or '').endswith('Platform'):
-            os = strip(dict(v[3]).get('os', ('unknown',)))
-            return os[0] == 'agg' and os[2] == 'Linux'
-        return False
+            return value_is_default('linux', dict(v[3]).get('os', ('unknown',)))
+        return None
+    if name == 'false':
+        return (v[1] is False) if v[0] == 'const' else None
+    if name == 'empty':
+        if v[0] == 'call' and not v[2] and re.match(r'^std::(vec::Vec|collections::(HashSet|BTreeSet|HashMap|BTreeMap)|collections::\w+::\w+|string::String)::<.*>::new$|^std::string::String::new$', v[1]):
+            return True
+        if v[0] == 'call' and not v[2] and re.match(r'^<std::(vec::Vec|collections::\w+(::\w+)*|string::String)(<.*>)? as std::default::Default>::default$', v[1]):
+            return True
+        return None
+    return None
+
+
+def default_value_ok(prog, sl, name, callee, N=None):
+    """semantic check of named defaults: the value the default function yields, read on its normal form (a hand-written
+    `impl Default`, `#[derive(Default)]` + `#[default]`, or a helper that builds the value all give the same term)"""
+    if name in ('app', 'linux'):
+        if name == 'app':
+            callee = '<%s as std::default::Default>::default' % (N.cur('libcnb_data::launch::WorkingDirectory') if N else 'libcnb_data::launch::WorkingDirectory')
+        return value_is_default(name, result_value(prog, sl, callee)) is True
     return True
 
 
@@ -75,11 +101,8 @@ def absent_is_none(prog, sl, k):
         return k.default == 'None'
     if k.default == 'std::default::Default::default' or re.match(r'^<std::option::Option<.*> as std::default::Default>::default$', k.default):
         return True   # Option's Default (the field type is checked to be Option<_>)
-    f = prog.fns.get(k.default)
-    if f is None:
-        return False
-    v = strip(sl.local(f, 0))
-    return v[0] == 'agg' and v[1] == 'std::option::Option' and v[2] == 'None'
+    v = result_value(prog, sl, k.default)   # a workspace default function: what it returns (normal form)
+    return v is not None and v[0] == 'agg' and v[1] == 'std::option::Option' and v[2] == 'None'
 
 
 def run(ctx, rep):
@@ -96,16 +119,20 @@ def run(ctx, rep):
                        'the default of the metadata type parameter (GenericMetadata = Option<toml Table>): alias / parameter defaults are not in the facts',
                        'which kinds / values a custom deserializer other than a string leaf accepts (reported UNPROVEN)']
     T = ctx.table('c08_schema.json')
-    roots = T['roots'] + ['libcnb_data::buildpack::BuildpackDescriptor']
+    # the tables name types by their paths on the pinned tree: N.cur(table name) = today's path of that type,
+    # N.base(type text of the facts) = the same text under the tables' names.  Subjects always carry the table names.
+    N = H.Names(prog)
+    roots = [N.cur(r) for r in T['roots'] + ['libcnb_data::buildpack::BuildpackDescriptor']]
     closure = S.field_type_closure(prog, roots)
     n_strict = 0
     schemas = {}
     unaccounted = []
-    for t in closure:
-        a = prog.adts[t]
+    for tc in closure:
+        a = prog.adts[tc]
+        t = N.base(tc)
         if not t.startswith('libcnb_data::'):
             continue
-        d = S.deser_struct(prog, sl, t)
+        d = S.deser_struct(prog, sl, tc)
         where = '%s:%s' % (a['file'], a['line'])
         if d is None:
             unaccounted.append((t, where))
@@ -125,7 +152,7 @@ def run(ctx, rep):
     # ---- R2 / R3 -------------------------------------------------------------------------------------
     for t, want in T['types'].items():
         d = schemas.get(t)
-        a = prog.adts.get(t)
+        a = prog.adts.get(N.cur(t))
         where = '%s:%s' % (a['file'], a['line']) if a else '-'
         if d is None or d['kind'] != 'struct':
             rep.unproven('R2', 'type/' + t, where, 'no derived struct Deserialize found for a type of the spec table')
@@ -154,14 +181,23 @@ def run(ctx, rep):
                     dflt = fv[1] if fv[0] == 'call' else ('<literal>' if fv[0] == 'agg' else None)
                     if name == 'empty' and fv[0] == 'call' and fv[1] in ('std::vec::Vec::<T>::new',):
                         dflt = 'std::default::Default::default'
-                ok = k.required is False and dflt in T['defaults'][name] and default_value_ok(prog, sl, name, dflt)
-                if not ok and k.required is False and (k.default or '').startswith('container:') and fv[0] == 'agg':
-                    # the container's Default impl spells the field's value out
-                    ok = {'linux': 'Linux', 'app': 'App'}.get(name) == fv[2]
+                fv = None if not (k.default or '').startswith('container:') else fv
+                dflt_b = N.base(dflt) if dflt else dflt
+                ok = k.required is False and dflt_b in T['defaults'][name] and default_value_ok(prog, sl, name, dflt, N)
+                if not ok and k.required is False and fv is not None:
+                    # the container's Default impl spells the field's value out (or builds it through helpers)
+                    ok = value_is_default(name, sl.inline_deep(fv)) is True
+                if not ok and k.required is False and fv is None and dflt in prog.fns and prog.fns[dflt].crate == t.split('::')[0]:
+                    # a default function of the workspace that is not the type's Default impl: decided on the value it returns
+                    ok = value_is_default(name, result_value(prog, sl, dflt)) is True
+                if not ok and k.required is False and fv is None and dflt and dflt not in prog.fns and dflt.startswith(('std::', '<std::')):
+                    # a std constructor named as the default (`default = "Vec::new"`): decided on what it builds
+                    ok = value_is_default(name, ('call', dflt, (), None)) is True
                 rep.check(ok, 'R2', subj, where, 'optional, default %s' % name,
                           'key %s must be optional with default %s: required=%s default=%s' % (key, name, k.required, k.default))
             elif spec == 'g':
-                ok = re.match(r'^[A-Z][A-Z0-9]*$', k.ty) is not None or k.ty.startswith('std::option::Option<toml::map::Map<')
+                # a type parameter of the struct (a bare identifier that is no primitive type; its name is free)
+                ok = (re.match(r'^[A-Za-z_]\w*$', k.ty) is not None and k.ty not in PRIMITIVES) or k.ty.startswith('std::option::Option<toml::map::Map<')
                 rep.check(ok, 'R2', subj, where, 'free-form metadata position (type parameter)', 'metadata position has fixed type %s' % k.ty)
             elif spec == 'u':
                 rep.holds('R2', subj, where, 'spec leaves presence open (required=%s)' % k.required, nontrivial=False)
@@ -171,7 +207,7 @@ def run(ctx, rep):
             k = d['keys'].get(key)
             if k is None or k.ty is None:
                 continue
-            got = kind_of(prog, k.ty, T['kinds'])
+            got = kind_of(prog, k.ty, T['kinds'], N)
             rep.check(got == kind, 'R3', '%s/%s' % (t, key), where, '%s : %s' % (key, kind), 'key %s has Rust type %s (%s), spec kind is %s' % (key, k.ty, got, kind))
             if kind.startswith('array<') and (t, key) not in H.UNORDERED:
                 # the spec's arrays are ordered and may repeat values: only a Vec yields exactly the document's values
@@ -183,11 +219,11 @@ def run(ctx, rep):
                           'key %s is typed %s: a free-form table accepts keys the format does not define' % (key, k.ty))
     for t in schemas:
         if schemas[t]['kind'] == 'struct' and t not in T['types']:
-            a = prog.adts[t]
+            a = prog.adts[N.cur(t)]
             rep.unproven('R2', 'untabled/' + t, '%s:%s' % (a['file'], a['line']), 'struct %s is reachable from a document root but has no row in the spec table' % t)
     # ---- R4 -------------------------------------------------------------------------------------------
-    u = S.deser_untagged(prog, sl, 'libcnb_data::buildpack::BuildpackDescriptor')
-    bd = prog.adt('libcnb_data::buildpack::BuildpackDescriptor')
+    u = S.deser_untagged(prog, sl, N.cur('libcnb_data::buildpack::BuildpackDescriptor'))
+    bd = prog.adt(N.cur('libcnb_data::buildpack::BuildpackDescriptor'))
     where = '%s:%s' % (bd['file'], bd['line'])
     if u is None:
         rep.unproven('R4', 'untagged', where, 'BuildpackDescriptor is not an untagged choice any more')
@@ -210,8 +246,9 @@ def run(ctx, rep):
     leaves = {'libcnb_data::buildpack::id::BuildpackId': 'parse', 'libcnb_data::launch::ProcessType': 'parse',
               'libcnb_data::buildpack::version::BuildpackVersion': 'try_from', 'libcnb_data::buildpack::api::BuildpackApi': 'try_from'}
     for t, how in leaves.items():
-        fs = S._find(prog, r"(Deserialize<'de> for %s>::deserialize$)|(^<%s as .*Deserialize<'de>>::deserialize$)" % (re.escape(t), re.escape(t)))
-        a = prog.adts.get(t)
+        tc = N.cur(t)
+        fs = S._find(prog, r"(Deserialize<'de> for %s>::deserialize$)|(^<%s as .*Deserialize<'de>>::deserialize$)" % (re.escape(tc), re.escape(tc)))
+        a = prog.adts.get(tc)
         where = '%s:%s' % (a['file'], a['line']) if a else '-'
         if len(fs) != 1:
             rep.unproven('R5', t, where, 'Deserialize impl not found')
@@ -228,9 +265,21 @@ def run(ctx, rep):
                     if k and 'fn_full' in k:
                         names.add(k.get('res_full') or k['fn_full'])
         if how == 'parse':
-            ok = any(('str>::parse::<%s>' % t) in n or n == '<%s as std::str::FromStr>::from_str' % t for n in names)
+            ok = any(('str>::parse::<%s>' % tc) in n or n == '<%s as std::str::FromStr>::from_str' % tc for n in names)
         else:
-            ok = any(n.startswith('<%s as std::convert::TryFrom<std::string::String>>::try_from' % t) for n in names)
+            ok = any(n.startswith('<%s as std::convert::TryFrom<std::string::String>>::try_from' % tc) for n in names)
+        if not ok:
+            # the same obligation on the normal form of what deserialize returns (helpers transparent, `?` / match / and_then
+            # alike): the validating conversion applied to the document's string is the type's own one -- `parse` =
+            # FromStr::from_str, `try_into` = TryFrom::try_from, or a workspace conversion that is only that one applied
+            # to its argument
+            out = {}
+            verdict, _text = H.string_leaf(prog, sl, f, out)
+            if how == 'parse':
+                primary = lambda n: n == '<%s as std::str::FromStr>::from_str' % tc
+            else:
+                primary = lambda n: n.startswith('<%s as std::convert::TryFrom<std::string::String>>::try_from' % tc)
+            ok = verdict is True and H.conversion_is(prog, sl, out.get('conv'), primary)
         unchecked = any('new_unchecked' in n for n in names)
         rep.check(ok and not unchecked, 'R5', t, where, 'deserializes through its validating %s' % how,
                   '%s does not deserialize through its validating conversion (%s)' % (t, how))
@@ -244,9 +293,9 @@ def run(ctx, rep):
     for t, d in schemas.items():
         if d['kind'] != 'struct':
             continue
-        a = prog.adts[t]
+        a = prog.adts[N.cur(t)]
         where = '%s:%s' % (a['file'], a['line'])
-        vp = H.value_paths(prog, sl, t, d)
+        vp = H.value_paths(prog, sl, N.cur(t), d)
         if vp is None:
             rep.unproven('R6', 'value/' + t, where, 'visit_map of %s not recognised' % t)
             continue
@@ -291,14 +340,14 @@ def run(ctx, rep):
         if t == 'libcnb_data::buildpack::BuildpackDescriptor':
             continue   # R4 decides the untagged choice of the two descriptor kinds
         subj = 'leaf/' + t
-        u2 = S.deser_untagged(prog, sl, t)
-        a = prog.adts[t]
+        u2 = S.deser_untagged(prog, sl, N.cur(t))
+        a = prog.adts[N.cur(t)]
         if u2 is not None and a['kind'] == 'enum':
             payload = [f['ty'] for v in a['variants'] for f in v['fields']]
-            ok = all(p in H.STRING_LIKE or p in T['kinds']['string'] for p in payload) and sorted(u2['variants']) == sorted(payload)
+            ok = all(N.base(p) in H.STRING_LIKE or N.base(p) in T['kinds']['string'] for p in payload) and sorted(u2['variants']) == sorted(payload)
             rep.check(ok, 'R6', subj, where, 'untagged choice of unit | %s' % payload, 'untagged %s tries %s (payloads %s): not a string-like leaf' % (t, u2['variants'], payload))
             continue
-        g = H.deserialize_fn(prog, t)
+        g = H.deserialize_fn(prog, N.cur(t))
         if g is None:
             rep.unproven('R6', subj, where, '%s is reachable from a document root; its Deserialize impl was not found' % t)
             continue
@@ -313,8 +362,8 @@ def run(ctx, rep):
                          % (t, g.path, text))
     # R5 (continued): the validating conversion sees exactly the document's string and its failure fails the parse
     for t in r5_leaves:
-        g = H.deserialize_fn(prog, t)
-        a = prog.adts.get(t)
+        g = H.deserialize_fn(prog, N.cur(t))
+        a = prog.adts.get(N.cur(t))
         where = '%s:%s' % (a['file'], a['line']) if a else '-'
         if g is None:
             continue   # reported above
@@ -327,16 +376,16 @@ def run(ctx, rep):
             rep.unproven('R5', 'exact/' + t, where, 'Deserialize of %s is not `validate(String::deserialize(d)?)?` (%s)' % (t, text))
     # ---- R7: closed string enums ---------------------------------------------------------------------------
     for t, want in H.ENUM_SPEC.items():
-        a = prog.adts.get(t)
+        a = prog.adts.get(N.cur(t))
         where = '%s:%s' % (a['file'], a['line']) if a else '-'
         d = schemas.get(t)
-        if t not in closure:
+        if N.cur(t) not in closure:
             rep.unproven('R7', 'names/' + t, where, '%s is not reachable from a document root any more' % t)
             continue
         if d is None or d['kind'] != 'enum' or d['strict'] is not True:
             rep.violated('R7', 'names/' + t, where, '%s is not a derived strict unit enum any more: values other than %s may be accepted' % (t, sorted(want)))
             continue
-        table, info = H.enum_table(prog, sl, t, d)
+        table, info = H.enum_table(prog, sl, N.cur(t), d)
         if table is None:
             rep.unproven('R7', 'names/' + t, where, 'name table of %s not recognised: %s' % (t, info))
             continue
@@ -345,10 +394,10 @@ def run(ctx, rep):
                   '%s maps %s, the spec says %s' % (t, sorted(table.items()), sorted(want.items())))
     for t, d in schemas.items():
         if d['kind'] == 'enum' and t not in H.ENUM_SPEC:
-            a = prog.adts[t]
+            a = prog.adts[N.cur(t)]
             rep.unproven('R7', 'untabled/' + t, '%s:%s' % (a['file'], a['line']), 'enum %s is reachable from a document root but has no name table' % t)
     # ---- R8: the reader ------------------------------------------------------------------------------------
-    rf = prog.fns.get('libcnb_common::toml_file::read_toml_file')
+    rf = prog.fns.get('libcnb_common::toml_file::read_toml_file') or prog._relocated('libcnb_common::toml_file::read_toml_file')
     if rf is None:
         rep.unproven('R8', 'read/read_toml_file', '-', 'libcnb_common::toml_file::read_toml_file not found')
     else:
